@@ -119,6 +119,13 @@ theorem C01_sound_factory {cfg : Cfg} {env : Env} {r : Response} {o : Reported}
   obtain ⟨cf, p, hl, hv, _⟩ := processFactory_identity_inv h
   exact sigPolicyOk_of_loads_verify hl hv (fun hf => by cases hf) id (fun hf => by cases hf)
 
+/-- C01 for the third entry point (`response_factory(...)` + `verify()`): both loads verify the Response signature when
+    present; the policy enforced is the factory's. -/
+theorem C01_sound_respfactory {cfg : Cfg} {env : Env} {r : Response} {o : Reported}
+    (h : processRespFactory cfg env r = .identity o) :
+    sigPolicyOk false cfg.wantAssert false r = true :=
+  C01_sound_factory (processRespFactory_identity h).2
+
 /-- The option defaults in the CURRENT source (regenerated table) are the ones the property names:
     want_response_signed = True, the other two False, unsolicited responses not allowed. -/
 theorem C01_defaults :
